@@ -58,11 +58,23 @@ def build_series(spec, name=None):
     if k == "odec":
         from decimal import Decimal
         return pd.Series([None if x is None else Decimal(x) for x in v], dtype=object, name=name)
+    if k in ("lstr", "lostr", "lbytes"):
+        vals = [None if x is None else expand_long(x, k == "lbytes") for x in v]
+        return pd.Series(vals, dtype="str" if k == "lstr" else object, name=name)
     if k == "cat":
         labels = build_series(spec["cats"])
         cat = pd.Categorical.from_codes(np.array(v, dtype="int64"), categories=pd.Index(labels), ordered=bool(spec.get("ordered")))
         return pd.Series(cat, name=name)
     raise ValueError(k)
+
+
+def expand_long(item, as_bytes=False):
+    """a long text/binary value stored compactly in case specs: [unit, length, tail] = `unit` repeated and cut
+    so that the whole value has `length` characters and ends in `tail` (values that share a long common prefix
+    and differ only at the very end); bytes values are the latin-1 bytes of that text"""
+    unit, length, tail = item
+    body = (unit * (length // max(1, len(unit)) + 1))[:max(0, length - len(tail))] + tail
+    return body.encode("latin-1") if as_bytes else body
 
 
 def build_frame(cols):
